@@ -83,6 +83,43 @@ theorem trialsFor_allTasks (I N C T j : Nat) :
   rw [List.filter_map, List.map_map]
   rfl
 
+/-- number of tasks among `0..m-1` working on input `j`, as a list length -/
+theorem countTasks_eq_cnt (q I j : Nat) (hI : 0 < I) :
+    ∀ m, ((List.range m).filter (fun t => inputOf q I t == j)).length = Plan.cnt q I j m := by
+  intro m
+  induction m with
+  | zero => simp [Plan.cnt]
+  | succ m ih =>
+    unfold Plan.cnt
+    rw [List.range_succ, List.filter_append, List.length_append, ih]
+    by_cases h : inputOf q I m = j
+    · have h' : Plan.inputOf q I m = j := by rw [← inputOf_eq_plan q I m hI]; exact h
+      simp [h, h']
+    · have h' : ¬ Plan.inputOf q I m = j := by rw [← inputOf_eq_plan q I m hI]; exact h
+      simp [h, h']
+
+theorem tasksFor_allTasks (I N C T j : Nat) :
+    ((allTasks I N C T).filter (fun t => t.input == j)).length =
+      ((List.range (N * C)).filter (fun t => inputOf (N * C / I) I t == j)).length := by
+  rw [allTasks_eq, List.filter_map, List.length_map]
+  rfl
+
+/-- every input is worked on by exactly `tpi` tasks (`q`, resp. `q + r` for the last input) -/
+theorem plan_count (I nT j : Nat) (hI : 0 < I) (hle : I ≤ nT) (hj : j < I) :
+    Plan.cnt (nT / I) I j nT = tpi (nT / I) (nT % I) I j := by
+  have hq : 0 < nT / I := Nat.div_pos hle hI
+  have hs : nT = (I - 1) * (nT / I) + nT / I + nT % I := by
+    have h := Nat.div_add_mod nT I
+    have : ∀ x, I * x = (I - 1) * x + x := by
+      intro x
+      obtain ⟨k, rfl⟩ : ∃ k, I = k + 1 := ⟨I - 1, by omega⟩
+      rw [Nat.add_sub_cancel, Nat.succ_mul]
+    have := this (nT / I)
+    omega
+  have hb := Plan.hi_sub_lo (r := nT % I) hI hq hs hj
+  rw [Plan.cnt_eq hI hq hs hj nT (Nat.le_refl _), tpi_eq_plan]
+  omega
+
 /-! ### decimal digits -/
 
 theorem digitsVal_append_single (ds : List Nat) (d : Nat) :
